@@ -293,7 +293,8 @@ class Sum(Type):
 
     def __init__(self, *types: Type):
         self.types = types
-        self.hash = hash(types)
+        # __eq__ compares the members as sets: so must the hash
+        self.hash = hash(frozenset(types))
 
     def all_versions(self) -> TList["Type"]:
         v = []
